@@ -420,7 +420,6 @@ package scipipe
 //@   ensures only-audit-files[C01]: forall p string :: effCreated[p] && !old(effCreated)[p] ==> auditFileOf(t, p)
 //@   ensures every-output-carries-the-record[C10]: exists a *AuditInfo :: recordOf(t, a, startTime, finishTime) && outFilesRecorded(t, a) && (forall o string :: o in t.OutIPs ==> t.OutIPs[o].auditInfo == a)
 //@   ensures upstream-records-linked-by-path[C10,C11]: old(inputsDistinct(t)) ==> exists a *AuditInfo :: recordOf(t, a, startTime, finishTime) && (forall o string :: o in t.OutIPs ==> t.OutIPs[o].auditInfo == a) && ((exists o string :: o in t.OutIPs) ==> upstreamLinked(t, a))
-//@   ensures upstream-tags-present-downstream[C10]: exists a *AuditInfo :: (forall o string :: o in t.OutIPs ==> t.OutIPs[o].auditInfo == a) && ((exists o string :: o in t.OutIPs) ==> tagsMerged(t, a))
 //@   ensures audit-file-written-for-every-output[C10]: forall o string :: o in t.OutIPs ==> effCreated[t.OutIPs[o].path + ".audit.json"]
 //@   loop 0 invariant rec: recordOf(t, auditInfo, startTime, finishTime) && freshRecord(auditInfo)
 //@   loop 0 invariant distinct: old(inputsDistinct(t)) ==> inputsDistinct(t)
@@ -440,16 +439,12 @@ package scipipe
 //@   loop 2 invariant outfiles: (forall n string :: n in auditInfo.OutFiles <==> $visited[n]) && (forall n string :: $visited[n] ==> auditInfo.OutFiles[n] == t.OutIPs[n].path)
 //@   loop 3 invariant rec: recordOf(t, auditInfo, startTime, finishTime) && freshRecord(auditInfo) && outFilesRecorded(t, auditInfo)
 //@   loop 3 invariant linked: old(inputsDistinct(t)) ==> upstreamLinked(t, auditInfo)
-//@   loop 3 invariant tags: (exists k string :: $visited[k]) ==> tagsMerged(t, auditInfo)
 //@   loop 3 invariant vis: forall k string :: $visited[k] ==> k in t.OutIPs
 //@   loop 3 invariant attached: forall k string :: $visited[k] ==> t.OutIPs[k].auditInfo == auditInfo && effCreated[t.OutIPs[k].path + ".audit.json"]
 //@   loop 3 invariant only-audit-files: forall p string :: effCreated[p] && !old(effCreated)[p] ==> auditFileOf(t, p)
 //@   loop 3 invariant grows: forall p string :: old(effCreated)[p] ==> effCreated[p]
 //@   loop 4 invariant rec: recordOf(t, auditInfo, startTime, finishTime) && freshRecord(auditInfo) && outFilesRecorded(t, auditInfo) && oip.auditInfo == auditInfo && oip != nil
 //@   loop 4 invariant linked: old(inputsDistinct(t)) ==> upstreamLinked(t, auditInfo)
-//@   loop 4 invariant vis: forall i string :: $visited[i] ==> i in t.InIPs
-//@   loop 4 invariant tags-so-far: forall i string :: $visited[i] && apart(t, auditInfo, i) ==> tagsOfInput(t, auditInfo, i)
-//@   loop 4 invariant tags-before: (exists k string :: $visited3[k] && t.OutIPs[k] != oip) ==> tagsMerged(t, auditInfo)
 //@   loop 4 invariant attached: forall k string :: $visited3[k] && t.OutIPs[k] != oip ==> t.OutIPs[k].auditInfo == auditInfo && effCreated[t.OutIPs[k].path + ".audit.json"]
 //@   loop 4 invariant cur: exists k string :: k in t.OutIPs && t.OutIPs[k] == oip
 //@   loop 4 invariant only-audit-files: forall p string :: effCreated[p] && !old(effCreated)[p] ==> auditFileOf(t, p)
